@@ -418,7 +418,30 @@ def discharge(site):
                     site.reason = 'size bounded: %s %s %s' % (show(a), op, show(b))
                     return True
             site.detail = 'size = %s' % show(n)
+            # a signed wire value reinterpreted as an unsigned size: a negative length becomes an enormous one, and
+            # `vec![0; n]` / `with_capacity(n)` then panic with "capacity overflow" instead of returning an error
+            src = _signed_wire_source(n)
+            if src is not None:
+                nonneg = False
+                for op, a, b, sbb, tb in body.comparisons_at(site.bb):
+                    if b is None:
+                        continue
+                    if nosite(a) == nosite(src) and b[0] == 'const' and ((op == 'Ge' and b[1] >= 0) or (op == 'Gt' and b[1] >= -1)):
+                        nonneg = True
+                    if nosite(b) == nosite(src) and a[0] == 'const' and ((op == 'Le' and a[1] >= 0) or (op == 'Lt' and a[1] >= -1)):
+                        nonneg = True
+                if not nonneg:
+                    site.negative = show(src)
     return False
+
+
+def _signed_wire_source(e):
+    """operand of a signed -> unsigned integer cast inside e whose value was read off the wire"""
+    SIGNED = ('i8', 'i16', 'i32', 'i64', 'isize')
+    for x in subexprs(e):
+        if x and x[0] == 'cast' and x[1] == 'IntToInt' and len(x) > 4 and x[4] in SIGNED and x[2] in ('usize', 'u64', 'u32') and wire_derived(x[3]):
+            return x[3]
+    return None
 
 
 def _is_slice_len(e, dst):
@@ -679,6 +702,9 @@ def audit_bodies(rep, rule, bodies, audited, classes=('assert', 'panic', 'partia
                 what = {'assert': 'assertion that can fire', 'panic': 'panicking call', 'partial': 'partial function called without a dominating bounds guard',
                         'alloc': 'allocation sized by an unguarded value', 'unchecked': 'unchecked operation outside the audited list', 'leak': 'ownership-releasing call outside the audited list'}[s.kind]
                 rep.bad(rule, key, s.loc(), '%s: %s %s (macro: %s)' % (what, short(s.what), s.detail, s.mac or '-'))
+            if getattr(s, 'negative', None):
+                nkey = 'negsize|%s|%s|' % (s.body.id, short(s.what))
+                rep.bad(rule, nkey, s.loc(), 'allocation size is the signed wire value %s reinterpreted as unsigned with no sign test before it: a negative length panics with "capacity overflow" instead of yielding an error' % s.negative)
     return used
 
 
